@@ -590,3 +590,73 @@ Proof.
   destruct (run_locus_fuel_sound src g n l t st T) as (_ & _ & _ & _ & _ & N).
   destruct (N lb Vb) as [H|H]; [cbn in H; discriminate|exact H].
 Qed.
+
+(* ------------------------------------------------------------------ *)
+(** * penalty and teams                                                *)
+
+(* penalty() only moves ip_: the memo is untouched, and since every theorem
+   above holds from any state, interleaving penalty() calls with runs changes
+   no result *)
+Lemma penalty_locus_state : forall g pk l st,
+  snd (penalty_locus g pk l st) = set_ip st l.
+Proof. reflexivity. Qed.
+
+Lemma penalty_depends_on_gene_only : forall g pk l st1 st2,
+  fst (penalty_locus g pk l st1) = fst (penalty_locus g pk l st2).
+Proof. reflexivity. Qed.
+
+Lemma penalty_cmp4 : forall g pk l st ge a b c d,
+  gene_at g l = Some ge -> pk (s_opcode (g_sym ge)) = PenCmp4 -> g_args ge = [a; b; c; d] ->
+  fst (penalty_locus g pk l st) = Some (b2z (Nat.eqb a b) + b2z (Nat.eqb c d))%Z.
+Proof.
+  intros g pk l st ge a b c d G K A. unfold penalty_locus. cbn [fst]. rewrite G, K.
+  unfold penalty_sym, fetch_index. cbn [ip set_ip]. rewrite G, A. reflexivity.
+Qed.
+
+(* the four-argument helper on a gene with fewer arguments reads a missing argument *)
+Lemma penalty_cmp4_short : forall g pk l st ge,
+  gene_at g l = Some ge -> pk (s_opcode (g_sym ge)) = PenCmp4 -> length (g_args ge) < 4 ->
+  fst (penalty_locus g pk l st) = None.
+Proof.
+  intros g pk l st ge G K A. unfold penalty_locus. cbn [fst]. rewrite G, K.
+  unfold penalty_sym, fetch_index. cbn [ip set_ip]. rewrite G.
+  destruct (g_args ge) as [|a [|b [|c [|d r]]]]; cbn in *; try reflexivity. lia.
+Qed.
+
+Lemma run_after_penalty : forall g, wf_genome g -> forall pk l st ex,
+  exists t, active_tree g = Some t /\
+    fst (run_ex true g ex (snd (penalty_locus g pk l st))) = res_of_outcome (den (nth_error ex) t).
+Proof. intros g W pk l st ex. apply run_is_denotation. exact W. Qed.
+
+(* a team's output is the running mean of the denotations of its members'
+   active trees, whatever each member's interpreter did before *)
+Lemma team_eval_den : forall ms ts ex,
+  Forall2 (fun m t => tree_of (rows (fst m)) (fst m) (best (fst m)) = Some t) ms ts ->
+  forall avg count,
+    fst (team_eval ms ex avg count) = team_den ts (nth_error ex) avg count.
+Proof.
+  intros ms ts ex H. induction H as [|[g st] t ms ts T H IH]; intros avg count; [reflexivity|].
+  cbn [team_eval team_den]. cbn [fst] in T.
+  pose proof (run_ex_den g t ex st T) as R.
+  destruct (run_ex true g ex st) as [res st']. cbn [fst] in R. subst res.
+  destruct (den (nth_error ex) t) as [v| |]; cbn [res_of_outcome]; try reflexivity.
+  destruct (has_value v).
+  - destruct (lexical_double v) as [x|]; [|reflexivity].
+    specialize (IH (F64.add avg (F64.div (F64.sub x avg) (F64.add count f64_one))) (F64.add count f64_one)).
+    destruct (team_eval ms ex _ _) as [o sts]. exact IH.
+  - specialize (IH avg count). destruct (team_eval ms ex avg count) as [o sts]. exact IH.
+Qed.
+
+Lemma team_run_is_member_denotations : forall ms ex,
+  Forall (fun m => wf_genome (fst m)) ms ->
+  exists ts, Forall2 (fun m t => active_tree (fst m) = Some t) ms ts /\
+             fst (team_run ms ex) = team_den ts (nth_error ex) F64.zero F64.zero.
+Proof.
+  intros ms ex W.
+  assert (E : exists ts, Forall2 (fun m t => active_tree (fst m) = Some t) ms ts /\
+                         Forall2 (fun m t => tree_of (rows (fst m)) (fst m) (best (fst m)) = Some t) ms ts).
+  { induction W as [|m ms Wm W IH]; [exists []; split; constructor|].
+    destruct IH as (ts & A & B). destruct (wf_active_tree _ Wm) as (t & At & Tt).
+    exists (t :: ts). split; constructor; assumption. }
+  destruct E as (ts & A & B). exists ts. split; [exact A|]. apply team_eval_den. exact B.
+Qed.
